@@ -494,7 +494,8 @@ impl A9 {
                                         _ => out.violations.push(viol("C17", "lookup_by_name", format!("get_key({:?}) does not return the section's keys", e.name))),
                                     }
                                     if let Ok(epk) = EncodedPk::try_from(e.public.as_str()) {
-                                        if kr.get_name_from_key(&epk) != Some(e.name.clone()) {
+                                        // (owned or borrowed: either return type is fine)
+                                        if kr.get_name_from_key(&epk).map(|n| n.to_string()) != Some(e.name.clone()) {
                                             out.violations.push(viol("C17", "lookup_by_key", format!("get_name_from_key does not return {:?}", e.name)));
                                         }
                                     }
